@@ -488,20 +488,36 @@ pub struct Script {
     pub spaced: bool,
     pub rate: u32,
     pub max_signals: u32,
+    /// how the script ends: 0 disarmed, then ordinary commands; 1 still armed,
+    /// `exit` whose operand is a slow command substitution; 2 still armed,
+    /// errexit on a slow failing subshell. In 1 and 2 the last command
+    /// boundary is the one after the command that makes the shell exit: a
+    /// signal that arrives while that command runs must still be handled.
+    #[serde(default)]
+    pub ending: u8,
 }
 
 fn gen_script(rng: &mut Rng, tier: Tier) -> Script {
     let trap1 = true;
     let trap2 = rng.below(4) as u8;
+    let ending = *rng.pick(&[0u8, 0, 0, 1, 2]);
     let mut lines = Vec::new();
     let nap1 = if rng.below(3) == 0 { format!("nap {}; ", rng.range(1, 3)) } else { String::new() };
-    lines.push(format!("trap 'mark tb U1; {nap1}echo u1 >>/work/tlog; mark te U1; rc 7' USR1"));
+    // (under errexit a failing last command of the action would itself end the shell)
+    let last = if ending == 2 { "" } else { "; rc 7" };
+    // (`mark` returns the `$?` it found, non-zero on entry to an action that
+    // runs after the failed command: `|| :` keeps errexit out of the action)
+    let guard = if ending == 2 { " || :" } else { "" };
+    lines.push(format!("trap 'mark tb U1{guard}; {nap1}echo u1 >>/work/tlog; mark te U1{last}' USR1"));
     match trap2 {
-        1 => lines.push("trap 'mark tb U2; echo u2 >>/work/tlog; mark te U2; rc 9' USR2".into()),
+        1 => lines.push(format!(
+            "trap 'mark tb U2{guard}; echo u2 >>/work/tlog; mark te U2{}' USR2",
+            if ending == 2 { "" } else { "; rc 9" }
+        )),
         2 => lines.push("trap '' USR2".into()),
         // the shell was started with USR2 ignored: the trap must be refused
         // and the signal must stay ignored
-        3 => lines.push("trap 'mark tb U2; mark te U2' USR2 2>/dev/null; echo \"trap=$?\"".into()),
+        3 => lines.push(format!("trap 'mark tb U2{guard}; mark te U2' USR2 2>/dev/null; echo \"trap=$?\"")),
         _ => {}
     }
     lines.push("mark armed".into());
@@ -533,9 +549,15 @@ fn gen_script(rng: &mut Rng, tier: Tier) -> Script {
         };
         lines.push(line);
     }
-    lines.push("mark disarmed".into());
-    lines.push("echo end".into());
-    lines.push("rc 0; echo \"?=$?\"".into());
+    match ending {
+        1 => lines.push(format!("exit $(nap {}; mark disarmed; nap 1; echo 5)", rng.range(1, 4))),
+        2 => lines.push(format!("set -e; ( nap {}; mark disarmed; nap 1; exit 3 )", rng.range(1, 4))),
+        _ => {
+            lines.push("mark disarmed".into());
+            lines.push("echo end".into());
+            lines.push("rc 0; echo \"?=$?\"".into());
+        }
+    }
     Script {
         lines,
         trap1,
@@ -543,6 +565,7 @@ fn gen_script(rng: &mut Rng, tier: Tier) -> Script {
         spaced: rng.bool(),
         rate: *rng.pick(&[30u32, 80, 200, 500]),
         max_signals: rng.range(1, 4),
+        ending,
     }
 }
 
